@@ -43,7 +43,12 @@ type rawCtl struct {
 }
 
 func realBsdiff(old, new []byte, parts, conc int) ([]rawCtl, error) {
-	dc := &bsdiff.DiffContext{Partitions: parts, SuffixSortConcurrency: conc}
+	return realBsdiffWith(&bsdiff.DiffContext{Partitions: parts, SuffixSortConcurrency: conc}, old, new)
+}
+
+// realBsdiffWith diffs with a given (possibly already used) DiffContext: contexts are re-usable, the optimizer
+// uses one for all files of a patch
+func realBsdiffWith(dc *bsdiff.DiffContext, old, new []byte) ([]rawCtl, error) {
 	var ctl []rawCtl
 	err := dc.Do(bytes.NewReader(old), bytes.NewReader(new), func(m proto.Message) error {
 		c := m.(*bsdiff.Control)
@@ -284,7 +289,31 @@ func cmdC12Large(args []string) error {
 		conc := rng.Intn(4) - 1
 		writeMarker(*marker, fmt.Sprintf("{\"id\":%d,\"oldlen\":%d,\"newlen\":%d,\"parts\":%d,\"desc\":%q}", k, len(old), len(new), parts, desc))
 		line := bsdLarge{Case: k, OldLen: int64(len(old)), NewLen: int64(len(new)), Parts: parts, Conc: conc, Desc: desc, NewSha: sha(new), Ctl: []bsdFact{}, Offs: []int64{}, Resumes: []bsdRes{}}
-		ctl, derr := realBsdiff(old, new, parts, conc)
+		var ctl []rawCtl
+		var derr error
+		if k%5 == 4 {
+			// a RE-USED differ context: first a pair with a longer old file (head ++ tail), then old = head and a new
+			// file made of content that sat in the tail of the earlier old file
+			head, tail := randBytes(rng, 64+rng.Intn(60000)), randBytes(rng, 64+rng.Intn(60000))
+			big := append(append([]byte{}, head...), tail...)
+			mod := append([]byte{}, big...)
+			mod[rng.Intn(len(mod))] ^= 0x40
+			dc := &bsdiff.DiffContext{Partitions: parts, SuffixSortConcurrency: conc}
+			if _, err := realBsdiffWith(dc, big, mod); err != nil {
+				derr = err
+			}
+			a := rng.Intn(len(tail) / 2)
+			old = head
+			new = append(append([]byte{}, tail[a:]...), head[:rng.Intn(len(head))]...)
+			desc = "reused-context:" + desc
+			line.Desc, line.OldLen, line.NewLen, line.NewSha = desc, int64(len(old)), int64(len(new)), sha(new)
+			writeMarker(*marker, fmt.Sprintf("{\"id\":%d,\"oldlen\":%d,\"newlen\":%d,\"parts\":%d,\"desc\":%q}", k, len(old), len(new), parts, desc))
+			if derr == nil {
+				ctl, derr = realBsdiffWith(dc, old, new)
+			}
+		} else {
+			ctl, derr = realBsdiff(old, new, parts, conc)
+		}
 		if derr != nil {
 			line.DiffErr = derr.Error()
 		}
